@@ -139,6 +139,7 @@ namespace verif {
     int index = -1;
     std::string detail;
     bool y90_waiver = false;
+    bool y90_mono = false; // the port's pair shares the energy equally, as the reference's does
   };
 
   inline bool momenta_close(const double * a, const bxdecay0::particle & b, double rel = 1e-9)
@@ -175,6 +176,7 @@ namespace verif {
       const auto & b = pp[2];
       bool species_ok = (a.get_code() == 2 && b.get_code() == 3) || (a.get_code() == 3 && b.get_code() == 2);
       double ea = ekin(a), eb = ekin(b);
+      c.y90_mono = std::fabs(ea - eb) <= 1e-9;
       double cosab = (a.get_px() * b.get_px() + a.get_py() * b.get_py() + a.get_pz() * b.get_pz()) / (a.get_p() * b.get_p());
       bool ok = species_ok && ea >= 0 && eb >= 0 && std::fabs(ea + eb - 0.739) <= 1e-9 && std::fabs(cosab - 1.0) <= 1e-9
                 && same_bits(a.get_time(), b.get_time()) && a.get_time() >= pp[0].get_time();
